@@ -8,7 +8,7 @@ WITNESSES = ['w2']
 
 
 MANIFEST = {
-    "text": "Static decision of the ownership contracts visible in types and paths: a producer/consumer pairing table of every raw-ownership transfer (Box::into_raw / CString::into_raw / mem::forget vs Box::from_raw / from_raw_parts) with the owner *type* on both sides, which fixes the deallocation layout; null-guard dominance before every dereference or re-owning of a raw pointer; Buffer is move-only (no Copy, consuming operations take self by value); non-consuming operations reach no consumer; every extern \"C\" function calls its native counterpart; no use after release inside the library. Also: the caller's header list is read to its end (R18.10).",
+    "text": "Static decision of the ownership contracts visible in types and paths: a producer/consumer pairing table of every raw-ownership transfer (Box::into_raw / CString::into_raw / mem::forget vs Box::from_raw / from_raw_parts) with the owner *type* on both sides, which fixes the deallocation layout; null-guard dominance before every dereference or re-owning of a raw pointer; Buffer is move-only (no Copy, consuming operations take self by value); non-consuming operations reach no consumer; every extern \"C\" function calls its native counterpart; no use after release inside the library. Also: the caller's header list is read to its end (R18.10). Also (round 5): every return of a wrapper that skips its native counterpart follows a null pointer or an unusable input (R18.5), and every static that can change is reviewed by name — the library keeps no state between calls (R18.11).",
     "technique": "static analysis: ownership pairing table + guard dominance over MIR, call-graph reachability, type-level checks",
 }
 
